@@ -247,6 +247,9 @@ func (g *TemplateGenerator) methodData(ctx context.Context, method *types.Func, 
 	}
 
 	returns := make([]template.Param, signature.Results().Len())
+	for j := range returns {
+		methodScope.AddName(fmt.Sprintf("r%d", j)) // the testify template declares r0, r1, ...
+	}
 	for j := 0; j < signature.Results().Len(); j++ {
 		param := signature.Results().At(j)
 
